@@ -381,52 +381,75 @@ def sched_one(scenario, nthreads, prefix, lines):
         net.uninstall()
 
 
-def part_sched(args):
-    scenario, nthreads, bound, lines = args
+def sched_exec(args):
+    """one execution (in a forked child) of one schedule prefix -> (args, choices, nenabled, running_enabled, fresh, fail, outcome)"""
+    scenario, nthreads, prefix, lines = args
     from vf.core import in_fork
 
-    t = Tally()
-    stack = [[]]
-    executions = 0
-    maxpoints = 0
-    # determinism self-check: the default schedule twice, in two separate children
-    a = in_fork(lambda: sched_one(scenario, nthreads, [], lines))
-    b = in_fork(lambda: sched_one(scenario, nthreads, [], lines))
-    if a[:3] != b[:3] or a[4] != b[4]:
-        raise HarnessError(f"schedule replay is not deterministic ({scenario}): {len(a[0])} vs {len(b[0])} points")
-    while stack:
-        prefix = stack.pop()
-        choices, nenabled, running_enabled, fresh, fail, outcome = in_fork(lambda: sched_one(scenario, nthreads, prefix, lines))
-        executions += 1
-        maxpoints = max(maxpoints, len(choices))
-        t.count("evaluations")
-        t.count("schedules")
-        case = {"part": "sched", "scenario": scenario, "threads": nthreads, "lines": lines, "schedule": choices}
-        if fail:
-            t.fail(f"C15|sched|{scenario}|{fail[0]}", case, fail[1])
-        else:
-            t.outcome(outcome)
-        pre = 0
-        costs = []
-        for i, c in enumerate(choices):
-            costs.append(pre)
-            if c != 0 and running_enabled[i]:
-                pre += 1
-        for i in range(len(prefix), len(choices)):
-            if nenabled[i] <= 1:
-                continue
-            cost = costs[i] + (1 if running_enabled[i] else 0)
-            if bound is not None and cost > bound:
-                continue
-            if lines and running_enabled[i] and not fresh[i]:
-                continue
-            for alt in range(1, nenabled[i]):
-                stack.append(choices[:i] + [alt])
-    t.count("sched-executions", executions)
-    t.counts["points_max"] = max(t.counts.get("points_max", 0), maxpoints)
-    t.sample({"part": "sched", "scenario": scenario, "threads": nthreads, "preemption_bound": bound, "points": "file/HTTP seams" + (" + every line of ofxtools/Client.py (first visits)" if lines else ""),
-              "executions": executions, "points_per_execution": maxpoints})
-    return t
+    r = in_fork(lambda: sched_one(scenario, nthreads, list(prefix), lines))
+    return (args,) + tuple(r)
+
+
+def sched_chunk(chunk):
+    return [sched_exec(a) for a in chunk]
+
+
+def explore_schedules(ctx, tally, configs):
+    """configs: [(scenario, nthreads, bound, lines)].  Level-synchronous iterative context bounding over the process pool:
+    every execution runs in its own forked child; the children of an execution (alternatives at later points within the
+    preemption bound) form the next level."""
+    import multiprocessing as mp
+
+    from vf.core import in_fork
+
+    # determinism self-check per configuration: the default schedule twice in separate children
+    for (sc, n, bound, lines) in configs:
+        a = in_fork(lambda: sched_one(sc, n, [], lines))
+        b = in_fork(lambda: sched_one(sc, n, [], lines))
+        if a[:3] != b[:3] or a[4] != b[4]:
+            raise HarnessError(f"schedule replay is not deterministic ({sc}, lines={lines}): {len(a[0])} vs {len(b[0])} points")
+    bounds = {(sc, n, lines): bound for (sc, n, bound, lines) in configs}
+    frontier = [(sc, n, (), lines) for (sc, n, bound, lines) in configs]
+    per = {}
+    with mp.get_context("fork").Pool(ctx.workers) as pool:
+        while frontier:
+            chunks = [frontier[i::ctx.workers * 4] for i in range(ctx.workers * 4)]
+            chunks = [c for c in chunks if c]
+            results = [r for rs in pool.map(sched_chunk, chunks) for r in rs]
+            frontier = []
+            for (args, choices, nenabled, running_enabled, fresh, fail, outcome) in results:
+                scenario, nthreads, prefix, lines = args
+                bound = bounds[(scenario, nthreads, lines)]
+                tally.count("evaluations")
+                tally.count("schedules")
+                tally.count("sched-executions")
+                key = (scenario, nthreads, lines)
+                per[key] = per.get(key, 0) + 1
+                tally.counts["points_max"] = max(tally.counts.get("points_max", 0), len(choices))
+                case = {"part": "sched", "scenario": scenario, "threads": nthreads, "lines": lines, "schedule": choices}
+                if fail:
+                    tally.fail(f"C15|sched|{scenario}|{fail[0]}", case, fail[1])
+                else:
+                    tally.outcome(outcome)
+                pre = 0
+                costs = []
+                for i, c in enumerate(choices):
+                    costs.append(pre)
+                    if c != 0 and running_enabled[i]:
+                        pre += 1
+                for i in range(len(prefix), len(choices)):
+                    if nenabled[i] <= 1:
+                        continue
+                    cost = costs[i] + (1 if running_enabled[i] else 0)
+                    if bound is not None and cost > bound:
+                        continue
+                    if lines and running_enabled[i] and not fresh[i]:
+                        continue
+                    for alt in range(1, nenabled[i]):
+                        frontier.append((scenario, nthreads, tuple(choices[:i]) + (alt,), lines))
+    for (sc, n, lines), cnt in sorted(per.items()):
+        tally.sample({"part": "sched", "scenario": sc, "threads": n, "preemption_bound": bounds[(sc, n, lines)],
+                      "points": "file/HTTP seams" + (" + every line of ofxtools/Client.py (first visits)" if lines else ""), "executions": cnt}, cap=12)
 
 
 # ---------------------------------------------------------------------------------------------
@@ -497,47 +520,10 @@ def part_two_servers(args):
     return t
 
 
-def part_sched_single(args):
-    """one execution of one given schedule prefix (used to spread bound-1 line-level exploration over the pool)"""
-    scenario, nthreads, prefix, lines = args
-    from vf.core import in_fork
-
-    t = Tally()
-    choices, nenabled, running_enabled, fresh, fail, outcome = in_fork(lambda: sched_one(scenario, nthreads, list(prefix), lines))
-    t.count("evaluations")
-    t.count("schedules")
-    t.count("sched-executions")
-    t.counts["points_max"] = len(choices)
-    if fail:
-        t.fail(f"C15|sched|{scenario}|{fail[0]}", {"part": "sched", "scenario": scenario, "threads": nthreads, "lines": lines, "schedule": choices}, fail[1])
-    else:
-        t.outcome(outcome)
-    return t
-
-
-def line_level_jobs(scenario, nthreads):
-    """bound-1 exploration at line granularity: the default execution fixes the branch points (first visit of each line of
-    ofxtools/Client.py by the running thread, and every seam point); each alternative is one further execution"""
-    from vf.core import in_fork
-
-    a = in_fork(lambda: sched_one(scenario, nthreads, [], True))
-    b = in_fork(lambda: sched_one(scenario, nthreads, [], True))
-    if a[:3] != b[:3] or a[4] != b[4]:
-        raise HarnessError(f"schedule replay is not deterministic ({scenario}, line level): {len(a[0])} vs {len(b[0])} points")
-    choices, nenabled, running_enabled, fresh = a[:4]
-    jobs = [("sched1", (scenario, nthreads, (), True))]
-    for i in range(len(choices)):
-        if nenabled[i] <= 1 or (running_enabled[i] and not fresh[i]):
-            continue
-        for alt in range(1, nenabled[i]):
-            jobs.append(("sched1", (scenario, nthreads, tuple(choices[:i]) + (alt,), True)))
-    return jobs
-
-
 def dispatch(chunk):
     t = Tally()
     for part, args in chunk:
-        t.merge({"hist": part_histories, "crash": part_crash, "sched": part_sched, "sched1": part_sched_single, "two": part_two_servers}[part](args))
+        t.merge({"hist": part_histories, "crash": part_crash, "two": part_two_servers}[part](args))
     return t
 
 
@@ -545,17 +531,18 @@ def run(ctx):
     jobs = [("hist", (5 if ctx.quick else 7,))]
     for sc in ("first-write", "overwrite-longer", "overwrite-shorter"):
         jobs.append(("crash", (sc, "coarse" if ctx.quick else "fine")))
+    sconf = []
     for sc in ("no-cache", "with-old-cache", "mixed-answers"):
-        jobs.append(("sched", (sc, 2, 2 if ctx.quick else None, False)))
+        sconf.append((sc, 2, 2 if ctx.quick else None, False))
         # also between the statements of request_profile itself (one preemption, at the first visit of each line)
-        jobs += line_level_jobs(sc, 2)
+        if ctx.thorough or sc != "no-cache":
+            sconf.append((sc, 2, 1, True))
     if ctx.thorough:
-        jobs.append(("sched", ("no-cache", 3, 2, False)))
-        jobs.append(("sched", ("with-old-cache", 3, 2, False)))
-        jobs.append(("sched", ("mixed-answers", 2, 2, True)))
+        sconf.append(("no-cache", 3, 2, False))
+        sconf.append(("with-old-cache", 3, 2, False))
     jobs.append(("two", ()))
-    jobs.sort(key=lambda j: 0 if j[0] in ("sched", "hist") else 1)
     tally = ctx.pmap(dispatch, jobs, chunk=1)
+    explore_schedules(ctx, tally, sconf)
     pm = tally.counts.pop("points_max", 0)
     if tally.counts.get("transitions", 0) < 100 or tally.counts.get("crash-states", 0) < 10 or tally.counts.get("schedules", 0) < 20:
         raise HarnessError(f"vacuous: {tally.counts}")
@@ -599,7 +586,12 @@ def replay(ctx, case):
     if part == "crash":
         t = part_crash((case["scenario"], "coarse"))
     elif part == "sched":
-        t = part_sched((case["scenario"], case["threads"], 2, bool(case.get("lines"))))
+        from vf.core import in_fork
+
+        t = Tally()
+        r = in_fork(lambda: sched_one(case["scenario"], case["threads"], list(case["schedule"]), bool(case.get("lines"))))
+        if r[4]:
+            t.fail(f"C15|sched|{case['scenario']}|{r[4][0]}", case, r[4][1])
     else:
         t = part_two_servers(())
     for sig, (n, c, d) in sorted(t.fails.items()):
